@@ -31,7 +31,7 @@ def simple_word_splitter(text: str) -> list[str]:
 _PLACEHOLDER_PREFIX = "\x00AC"
 _PLACEHOLDER_SUFFIX = "\x00"
 _PLACEHOLDER_PATTERN = re.compile(
-    re.escape(_PLACEHOLDER_PREFIX) + r"([0-9]+)" + re.escape(_PLACEHOLDER_SUFFIX)
+    re.escape(_PLACEHOLDER_PREFIX) + r"([0-9]{1,9})" + re.escape(_PLACEHOLDER_SUFFIX)
 )
 
 
